@@ -344,6 +344,22 @@ KEY_GROUP = {
     "level": "segment-cn",
 }
 
+def is_segment_table(rows):
+    """Sorted, pairwise disjoint within a chromosome, each chromosome in one block, start < end."""
+    seen = set()
+    for i, r in enumerate(rows):
+        if not r["start"] < r["end"]:
+            return False
+        if i and rows[i - 1]["chromosome"] == r["chromosome"]:
+            if rows[i - 1]["end"] > r["start"]:
+                return False
+        else:
+            if r["chromosome"] in seen:
+                return False
+            seen.add(r["chromosome"])
+    return True
+
+
 def check_filter(ctx, op, filt, in_rows, got, feat, sub):
     """Compare one execution of filter `filt` on `in_rows` with the model.  Returns (ok, nontrivial)."""
     if isinstance(got, Exc):
@@ -361,6 +377,11 @@ def check_filter(ctx, op, filt, in_rows, got, feat, sub):
         return False, False
     ctx.trace()
     ctx.outcome([[o[c] for c in READ_NEED] + [o.get("cn"), o.get("cn1")] for o in out])
+    if not is_segment_table(in_rows):
+        # an intermediate table of a filter chain that is no longer sorted and disjoint (the step that produced it
+        # has been reported); the model is defined on segment tables only, so the chain stops here
+        ctx.stratum("chain-stopped/intermediate-not-a-segment-table")
+        return False, False
     best = None
     for lv in M.level_alternatives(filt, in_rows):
         model_out = M.apply(filt, in_rows, lv)
